@@ -2,7 +2,7 @@
 from . import vise, core
 PID = 'C07'
 MC = []
-TR = ['C07_Equiv', 'C07_Snapshot', 'C07_Reuse', 'C07_ReuseConsistent']
+TR = ['C07_Equiv', 'C07_Snapshot', 'C07_Reuse', 'C07_ReuseConsistent', 'C07_ReuseExit']
 
 
 def run(tier):
